@@ -4,7 +4,9 @@
   * Proofs/C02Remote.lean    a long-lived remote key set under key rotation (sequential histories)
   * Proofs/C02Verifiers.lean derived verifiers at the token-consuming endpoints, reused verifier objects
   * Proofs/C02Provider.lean  (round 4) `NewProvider` wires, for every option list, the key set / option list configured for EACH verifier
+  * Proofs/C02JwksDoc.lean   (round 5) the RP's parser of the downloaded JWKS document: every key of the set is go-jose's parse of ONE raw entry, its use the published one
 -/
 import OidcModel.Proofs.C02Remote
 import OidcModel.Proofs.C02Verifiers
 import OidcModel.Proofs.C02Provider
+import OidcModel.Proofs.C02JwksDoc
